@@ -166,4 +166,185 @@ theorem fv_init_value (n : Rat) (m : Int) (i : Nat) (hi : i ≤ 7) (b : Rat) (hb
   · refine ⟨⟨n, ⟨(m : Rat) / 10 ^ i / b⟩⟩, ?_, rfl⟩
     simp [FV.init, setFraction, fraction_init_decimal m i hi b hb]
 
+/-! ## 4. `FractionScalar` converts like a `Scalar` holding `float(value)` -/
+
+/-- **the converted FractionValue denotes the converted amount up to `SMALL / denominator`**, for
+every pair of units of a database of well-formed rows (affine units included: the numerator is
+converted as an increment), every number, numerator and denominator; and the conversion never
+fails for one value when it works for another.  `y` is what a `Scalar` holding `float(value)`
+converts to. -/
+theorem fs_convert_near {db : Db} (hdb : db.AllWF) {cat fromU toU : Sym} {q : Qty}
+    (hq : obtain db cat fromU = .ok q) (fv : FV) {y : Rat}
+    (hy : q.convertScalarValue db toU fv.value = .ok y) :
+    ∃ r, convertFV db cat fromU toU fv = .ok r ∧ |r.value - y| ≤ small / (fv.frac.denominator : Rat) := by
+  rcases csv_shape hdb q toU with ⟨A, B, _, hAB⟩ | ⟨e, he⟩
+  · refine ⟨_, convertFV_eq hq hAB fv, ?_⟩
+    rw [hAB] at hy
+    cases hy
+    have hd : (0 : Rat) < (fv.frac.x.den : Rat) := by exact_mod_cast fv.frac.x.den_pos
+    have hn := normalise_near (B * (fv.frac.x.num : Rat)) 1 (by norm_num)
+    simp only [abs_one, div_one] at hn
+    have e : (⟨A + B * fv.number, ⟨(normalise (B * fv.frac.x.num) 1).x / (fv.frac.x.den : Rat)⟩⟩ : FV).value
+        - (A + B * fv.value)
+        = ((normalise (B * fv.frac.x.num) 1).x - B * fv.frac.x.num) / (fv.frac.x.den : Rat) := by
+      rw [fv_value_eq fv]
+      simp only [FV.value, Frac.toFloat]
+      field_simp
+      ring
+    rw [e, abs_div, abs_of_pos hd]
+    unfold Frac.denominator
+    push_cast
+    exact div_le_div_of_nonneg_right hn (le_of_lt hd)
+  · rw [he] at hy; cases hy
+
+/-- **exactly equal** whenever the converted numerator increment is an integer or a decimal with
+at most seven places (e.g. inch → mm, m → cm, degC → K, every same-scale pair) -/
+theorem fs_convert_exact {db : Db} (hdb : db.AllWF) {cat fromU toU : Sym} {q : Qty}
+    (hq : obtain db cat fromU = .ok q) (fv : FV) {y a z : Rat}
+    (hy : q.convertScalarValue db toU fv.value = .ok y)
+    (ha : q.convertScalarValue db toU fv.frac.numerator = .ok a)
+    (hz : q.convertScalarValue db toU 0 = .ok z)
+    (m : Int) (i : Nat) (hi : i ≤ 7) (hinc : a - z = (m : Rat) / 10 ^ i) :
+    ∃ r, convertFV db cat fromU toU fv = .ok r ∧ r.value = y := by
+  rcases csv_shape hdb q toU with ⟨A, B, _, hAB⟩ | ⟨e, he⟩
+  · refine ⟨_, convertFV_eq hq hAB fv, ?_⟩
+    rw [hAB] at hy ha hz
+    cases hy; cases ha; cases hz
+    have hinc' : B * (fv.frac.x.num : Rat) = (m : Rat) / 10 ^ i := by
+      rw [← hinc]; unfold Frac.numerator; ring
+    rw [hinc', normalise_decimal m i hi, ← hinc']
+    have hd : (fv.frac.x.den : Rat) ≠ 0 := by exact_mod_cast fv.frac.x.den_nz
+    rw [fv_value_eq fv]
+    simp only [FV.value, Frac.toFloat]
+    field_simp
+    ring
+  · rw [he] at hy; cases hy
+
+/-- converting to the unit the value already has changes nothing -/
+theorem fs_convert_same_unit {db : Db} {cat u : Sym} {q : Qty}
+    (hq : obtain db cat u = .ok q) (hu : q.unit = u) (fv : FV) : convertFV db cat u u fv = .ok fv := by
+  have hAB : ∀ x, q.convertScalarValue db u x = .ok (0 + 1 * x) := by
+    intro x; unfold Qty.convertScalarValue; simp [hu]
+  rw [convertFV_eq hq hAB fv]
+  have := normalise_int fv.frac.x.num 1
+  simp only [one_mul, div_one] at this ⊢
+  rw [this]
+  cases fv with
+  | mk n f =>
+    cases f with
+    | mk x => simp [Rat.num_div_den]
+
+/-- a conversion fails for a FractionValue exactly when it fails for a plain float, with the same
+error -/
+theorem fs_convert_fails_like_scalar {db : Db} (hdb : db.AllWF) {cat fromU toU : Sym} {q : Qty}
+    (hq : obtain db cat fromU = .ok q) (fv : FV) (e : ErrKind) :
+    convertFV db cat fromU toU fv = .error e ↔ q.convertScalarValue db toU fv.value = .error e := by
+  rcases csv_shape hdb q toU with ⟨A, B, _, hAB⟩ | ⟨e', he⟩
+  · rw [convertFV_eq hq hAB fv, hAB]; simp
+  · rw [convertFV_err hq he fv, he]
+    simp
+
+/-- the shipped POSC table satisfies the hypothesis -/
+theorem posc_fs_convert_near {cat fromU toU : Sym} {q : Qty} (hq : obtain poscDb cat fromU = .ok q) (fv : FV)
+    {y : Rat} (hy : q.convertScalarValue poscDb toU fv.value = .ok y) :
+    ∃ r, convertFV poscDb cat fromU toU fv = .ok r ∧ |r.value - y| ≤ small / (fv.frac.denominator : Rat) :=
+  fs_convert_near posc_allWF hq fv hy
+
+/-- **the bound is attained: below `SMALL` the fraction is lost.**  `0 1/2 um` converts to `0 km`
+although `0.5 um = 5·10⁻¹⁰ km` (known finding `tiny-increment`; the full-strength statement
+"`r.value = y` for all units" is false) -/
+theorem fs_convert_tiny_counterexample :
+    convertFV poscDb (Sym.ofString "length") (Sym.ofString "um") (Sym.ofString "km") ⟨0, ⟨1 / 2⟩⟩
+      = .ok ⟨0, ⟨0⟩⟩
+    ∧ (⟨Sym.ofString "length", Sym.ofString "um"⟩ : Qty).convertScalarValue poscDb (Sym.ofString "km") (1 / 2)
+      = .ok (1 / 2000000000) := by
+  constructor <;> decide +kernel
+
+/-! ### non-vacuity: affine units, a scale pair, the hypotheses of the exact theorem -/
+
+example : obtain poscDb (Sym.ofString "temperature") (Sym.ofString "degC")
+    = .ok ⟨Sym.ofString "temperature", Sym.ofString "degC"⟩ := by decide +kernel
+/-- 5 1/2 degC = 278.15 + 1/2 K = 278.65 K (the repaired defect #23) -/
+example : convertFV poscDb (Sym.ofString "temperature") (Sym.ofString "degC") (Sym.ofString "K") ⟨5, ⟨1 / 2⟩⟩
+    = .ok ⟨R 27815 100, ⟨1 / 2⟩⟩ := by decide +kernel
+example : (⟨Sym.ofString "temperature", Sym.ofString "degC"⟩ : Qty).convertScalarValue poscDb (Sym.ofString "K") (11 / 2)
+    = .ok (R 27865 100) := by decide +kernel
+example : convertFV poscDb (Sym.ofString "length") (Sym.ofString "in") (Sym.ofString "mm") ⟨5, ⟨3 / 4⟩⟩
+    = .ok ⟨127, ⟨R 381 20⟩⟩ := by decide +kernel
+example : convertFV poscDb (Sym.ofString "pressure") (Sym.ofString "psig") (Sym.ofString "Pa") ⟨0, ⟨1 / 2⟩⟩
+    = .ok ⟨101325, ⟨R 6894757 2000⟩⟩ := by decide +kernel
+
+/-! ## 5. order and validity of FractionScalars = those of Scalars on `float(value)` -/
+
+/-- **`<`, `<=`, `>`, `>=` of two FractionScalars give what the same operator gives on two Scalars
+holding the floats**, as soon as the two amounts are further apart than `SMALL / denominator`
+(of the right operand, in the left operand's unit) -/
+theorem fs_order_eq_scalar {db : Db} (hdb : db.AllWF) {a b : FS} (hb : obtain db b.q.cat b.q.unit = .ok b.q)
+    {op : CmpOp} (ho : op.isOrder = true) {y : Rat}
+    (hy : b.q.convertScalarValue db a.q.unit b.value.value = .ok y)
+    (hm : small / (b.value.frac.denominator : Rat) < |a.value.value - y|) :
+    a.order db op b = scalarOrder db op a.q b.q a.value.value b.value.value := by
+  unfold FS.order scalarOrder
+  split
+  · rfl
+  · obtain ⟨r, hr, hbound⟩ := fs_convert_near hdb hb b.value hy
+    simp only [FS.getValue, hr, hy]
+    have : a.value.cmp op r = .ok (FV.cmpValue op a.value.value r.value) := by
+      cases op <;> simp_all [FV.cmp, CmpOp.isOrder]
+    rw [this, cmpValue_stable ho hbound hm]
+
+/-- in one unit no margin is needed: the comparison is the comparison of the two amounts -/
+theorem fs_order_same_unit {db : Db} {a b : FS} (hb : obtain db b.q.cat b.q.unit = .ok b.q)
+    (hu : b.q.unit = a.q.unit) (ht : a.q.qtype db = b.q.qtype db) {op : CmpOp} (ho : op.isOrder = true) :
+    a.order db op b = .ok (FV.cmpValue op a.value.value b.value.value)
+    ∧ scalarOrder db op a.q b.q a.value.value b.value.value = .ok (FV.cmpValue op a.value.value b.value.value) := by
+  unfold FS.order scalarOrder
+  simp only [ht, bne_self_eq_false, Bool.false_eq_true, if_false, FS.getValue]
+  rw [← hu, fs_convert_same_unit hb rfl]
+  constructor
+  · cases op <;> simp_all [FV.cmp, CmpOp.isOrder]
+  · simp [Qty.convertScalarValue]
+
+/-- FractionScalars of different quantity types are not comparable, exactly like Scalars; and a
+failing conversion fails both comparisons with the same error -/
+theorem fs_order_fails_like_scalar {db : Db} (hdb : db.AllWF) {a b : FS} (hb : obtain db b.q.cat b.q.unit = .ok b.q)
+    (op : CmpOp) :
+    (a.q.qtype db ≠ b.q.qtype db → a.order db op b = .error .type
+        ∧ scalarOrder db op a.q b.q a.value.value b.value.value = .error .type)
+    ∧ (∀ e, a.q.qtype db = b.q.qtype db → b.q.convertScalarValue db a.q.unit b.value.value = .error e →
+        a.order db op b = .error e ∧ scalarOrder db op a.q b.q a.value.value b.value.value = .error e) := by
+  constructor
+  · intro h
+    unfold FS.order scalarOrder
+    simp [h]
+  · intro e ht he
+    unfold FS.order scalarOrder
+    simp only [ht, bne_self_eq_false, Bool.false_eq_true, if_false, FS.getValue, he]
+    rw [(fs_convert_fails_like_scalar hdb hb b.value e).mpr he]
+    simp
+
+/-- **`CheckValidity` of a FractionScalar is `CheckValue` of its quantity on `float(value)`**: the
+verdict a Scalar with the same quantity holding that float gets, limits, exclusivity and unit
+conversion included -/
+theorem fs_validity_eq_scalar (db : Db) (s : FS) :
+    s.checkValidity db = scalarCheckValidity db s.q s.value.value := rfl
+
+/-- validity depends on the amount only: two FractionValues with equal `float()` get the same
+verdict -/
+theorem fs_validity_amount_only (db : Db) (q : Qty) (v w : FV) (h : v.value = w.value) :
+    (⟨q, v⟩ : FS).checkValidity db = (⟨q, w⟩ : FS).checkValidity db := by
+  unfold FS.checkValidity; rw [h]
+
+/-- the conversion registered for `UnitDatabase.Convert` returns a FractionValue whose amount is the
+amount of the converted value (it keeps no fraction) -/
+theorem db_convert_value {db : Db} {cq fromU toU c : Sym} {fv r : FV} (hne : (fromU == toU) = false)
+    {qt : Sym} (ht : db.typeOf cq = .ok qt) (hc : defaultCategory db fromU = some c)
+    (hr : convertFV db c fromU toU fv = .ok r) :
+    ∃ r', dbConvertFV db cq fromU toU fv = .ok r' ∧ r'.value = r.value ∧ r'.frac.x = 0 := by
+  have h0 := fraction_init_decimal 0 0 (by omega) 1 (by norm_num)
+  simp only [Int.cast_zero, pow_zero, div_one] at h0
+  refine ⟨⟨r.value, ⟨0⟩⟩, ?_, by simp [FV.value, Frac.toFloat], rfl⟩
+  unfold dbConvertFV
+  simp [hne, ht, hc, hr, FV.init, setFraction, FracArg.default, h0]
+
 end Barril.Frac
